@@ -69,6 +69,20 @@ def cases(e):
         ent = e[key]
         for val in (["mV"], ["mV", "s"], None, []):
             out.append(("%s.units=%r" % (key, val), key, lambda ent=ent, val=val: setattr(ent, "units", val)))
+    # calls the property does not list: with the switch OFF they must not move any timestamp either; with it ON they may
+    # stamp the entity they act on and nothing else
+    g, src = e["g"], e["src"]
+    out.append(("~DataArray.delete_dimensions()", "da", lambda: da.delete_dimensions()))
+    out.append(("~DataArray.append(data)", "da2", lambda: da2.append(np.array([9.0]))))
+    out.append(("~DataArray.data_extent = (5,)", "da2", lambda: setattr(da2, "data_extent", (5,))))
+    out.append(("~DataArray[0] = 1.0", "da2", lambda: da2.__setitem__(0, 1.0)))
+    out.append(("~Tag.references.append(<array>)", "tag", lambda: tag.references.append(da)))
+    out.append(("~DataArray.sources.append(<source>)", "da", lambda: da.sources.append(src)))
+    out.append(("~Group.data_arrays.append(<array>)", "g", lambda: g.data_arrays.append(da)))
+    out.append(("~Tag.create_feature(<array>)", "tag", lambda: tag.create_feature(da, "untagged")))
+    out.append(("~DataArray.metadata = <section>", "da", lambda: setattr(da, "metadata", sec)))
+    out.append(("~del DataArray.metadata", "da", lambda: delattr(da, "metadata")))
+    out.append(("~Section.create_property()", "sec", lambda: sec.create_property("np", [1])))
     return out
 
 
@@ -96,7 +110,9 @@ def main():
             entry = {"setter": label + (" (clock running backwards)" if tick < 0 else ""), "auto": auto, "clock": CLOCK[0], "raised": err, "moved": moved,
                      "updated_at": after[key][1], "created_changed": sorted(k for k in e if after[k][0] != before[k][0])}
             if err is None:
-                if auto:
+                if label.startswith("~"):
+                    entry["ok"] = (moved in ([], [key]) if auto else moved == []) and not entry["created_changed"]
+                elif auto:
                     entry["ok"] = after[key][1] == CLOCK[0] and moved == [key] and not entry["created_changed"]
                 else:
                     entry["ok"] = moved == []
